@@ -83,6 +83,7 @@ class Sim(object):
         self.escaped = []
         self.failed_cids = {}
         self.zombies = set()
+        self.term_at_stop = {}
         self.leader_before = {}
         self.inc_at_leader = {}
         self.confs = {}
@@ -276,6 +277,11 @@ class Sim(object):
         obj = self.nodes.pop(name, None)
         if obj is None:
             return False
+        # durable term (C07): a journaled process that stops between two steps has stored every term it adopted
+        # (a process killed inside a step - zombie - may hold a term in memory whose store was the killed write)
+        self.term_at_stop.pop(name, None)
+        if self.workdir and self.cfg.get('journal') and not self.is_ro(name) and name not in self.zombies:
+            self.term_at_stop[name] = obj.raftCurrentTerm
         self.net.endpoint_gone(name)
         if clean:
             CLOCK.active = name
@@ -291,6 +297,9 @@ class Sim(object):
             return False
         self.start_node(name, others)
         self.counters['restarts'] += 1
+        t0 = self.term_at_stop.pop(name, None)
+        if t0 is not None and self.nodes[name].raftCurrentTerm < t0:
+            self.V('C07', 'term-forgotten-by-restart', '%s held term %d when it was stopped and starts again with term %d' % (name, t0, self.nodes[name].raftCurrentTerm))
         return True
 
     # ---------------------------------------------------------------- steps
